@@ -16,6 +16,7 @@ import vlib
 from props import c11 as m
 
 
+WORST_SCORE = -536870912
 DELTA = 0.5 + 1e-6     # rounding of one entry of the log-add table (round to nearest, shift 0)
 EPS = 1e-5             # float64 slack of the reference
 
@@ -131,6 +132,9 @@ def judge_c12(c, d, rep, tab, case, stats):
             r = rem(i)
             if r is not None and d["RS"][i] <= 0 and d["RS"][i] != r:
                 viol.append((f"A* heuristic of node {i} is {d['RS'][i]}, best remaining score is {r}", True))
+        if rep.get("rem") is not None and any(v <= WORST_SCORE for v in rep["rem"]):
+            c.oblige("hypothesis of C12_astar_first_is_max (no remaining score underflows WORST_SCORE) holds on the dumped lattice", False,
+                     {"case": case, "request": d["tag"]})
         if rep.get("rem") is not None:
             # compared where the C memo is known (<= 0); nodes not below a seed keep the "unknown" mark
             bad = [i for i in range(len(N)) if d["RS"][i] <= 0 and d["RS"][i] != rep["rem"][i]]
@@ -207,7 +211,6 @@ def judge_c12(c, d, rep, tab, case, stats):
                     viol.append(("the best_prev chain of the returned link is not a start->end path", True))
                 elif tot != P["score"]:
                     viol.append((f"the best_prev chain sums to {tot}, path_scr is {P['score']}", True))
-                # lattice-based segmentation of the best path = its word instances
             if ok_lat and rep.get("best") is not None and rep["best"]["score"] != P["score"]:
                 mism.append(f"bestpath score: model {rep['best']['score']} C {P['score']}")
             if ok_lat and rep.get("best") is None:
@@ -264,169 +267,6 @@ def judge_c12(c, d, rep, tab, case, stats):
             inc("posterior:links", nl)
             stats["posterior:max-abs-deviation-from-exact"] = max(stats.get("posterior:max-abs-deviation-from-exact", 0.0), round(worst, 3))
             stats["posterior:largest-bound-used"] = max(stats.get("posterior:largest-bound-used", 0.0), round(wbound, 1))
-    return viol, mism
-    N, L, G = d["nodes"], d["links"], d["G"]
-    s, e = G["start"], G["end"]
-    exits, entries = m.adjacency(d)
-    lk = {(l["src"], l["dst"]): j for j, l in enumerate(L)}
-    ok_lat = rep["clauses"]["ok"] == 1
-
-    def inc(k, by=1):
-        stats[k] = stats.get(k, 0) + by
-    # ---- traversal
-    T = d["T"]
-    if T is not None:
-        if sorted(T) != list(range(len(L))):
-            viol.append((f"lattice_traverse_edges does not hand out every link exactly once: {len(T)} results for {len(L)} links", True))
-        else:
-            pos = {j: i for i, j in enumerate(T)}
-            for j in T:
-                for i in entries[L[j]["src"]]:
-                    if pos[i] > pos[j]:
-                        viol.append((f"traversal hands out link {j} before link {i} into its source node", True))
-                        break
-        if ok_lat and rep.get("traverse") is not None and rep["traverse"] != T:
-            mism.append(f"traverseEdges: model {rep['traverse'][:12]}… C {T[:12]}…")
-    # ---- heuristic
-    rem = best_rem(d)
-    if "RS" in d and ok_lat:
-        for i in range(len(N)):
-            r = rem(i)
-            if r is not None and d["RS"][i] <= 0 and d["RS"][i] != r:
-                viol.append((f"A* heuristic of node {i} is {d['RS'][i]}, best remaining score is {r}", True))
-        if rep.get("rem") is not None:
-            # compared where the C memo is known (<= 0); nodes not below a seed keep the "unknown" mark
-            bad = [i for i in range(len(N)) if d["RS"][i] <= 0 and d["RS"][i] != rep["rem"][i]]
-            if bad:
-                mism.append(f"remTable differs at nodes {bad[:5]}")
-    # ---- N-best
-    prev = None
-    for k, b in enumerate(d["B"]):
-        p = b["nodes"]
-        if prev is not None and b["score"] > prev:
-            viol.append((f"N-best entry {k} has score {b['score']} after {prev}", True))
-        prev = b["score"]
-        if any(i < 0 for i in p):
-            viol.append((f"N-best entry {k} visits a node that is not in the lattice", True))
-            continue
-        okp = p[-1] == e and N[p[0]]["sf"] == 0
-        tot = 0
-        for a, c2 in zip(p, p[1:]):
-            if (a, c2) not in lk:
-                okp = False
-                break
-            tot += L[lk[(a, c2)]]["ascr"]
-        if not okp:
-            viol.append((f"N-best entry {k} {p} is not a path from a frame-0 node to the end node", True))
-            continue
-        if tot != b["score"]:
-            viol.append((f"N-best entry {k}: score {b['score']} is not the sum {tot} of its link scores", True))
-        if p[0] != s and (s, p[0]) not in lk:
-            viol.append((f"N-best entry {k} starts at node {p[0]} which is neither the start node nor a successor of it", True))
-        words = " ".join(N[i]["base"] for i in p if not N[i]["fil"] and N[i]["state"] != -1)
-        if (b["hyp"] or "") != words:
-            viol.append((f"N-best entry {k}: hypothesis {b['hyp']!r} is not the word sequence {words!r} of its path", True))
-        segs = d["BX"].get(k, [])
-        exp = [(N[i]["word"], N[i]["sf"], (N[p[x + 1]]["sf"] - 1) if x + 1 < len(p) else N[i]["lef"]) for x, i in enumerate(p)]
-        if segs != exp:
-            viol.append((f"N-best entry {k}: segmentation {segs[:4]} differs from its path {exp[:4]}", True))
-    if d["B"]:
-        inc("nbest:entries", len(d["B"]))
-        if d.get("BN", {}).get("rejected", 0) > 0:
-            inc("nbest:requests-with-agenda-rejections")
-        seeds = [rem(i) for i, n in enumerate(N) if n["sf"] == 0 and rem(i) is not None]
-        if seeds and d["B"][0]["score"] != max(seeds):
-            viol.append((f"first N-best score {d['B'][0]['score']} is not the best score {max(seeds)} from the frame-0 nodes", True))
-    elif ok_lat and "BN" in d:
-        viol.append(("decoder_nbest returned no entry for a well-formed lattice", True))
-    if ok_lat and rep.get("nbest") is not None and "BN" in d:
-        mb = [(p["score"], p["nodes"]) for p in rep["nbest"]]
-        cb = [(b["score"], b["nodes"]) for b in d["B"]]
-        if mb != cb:
-            if [x[0] for x in mb] != [x[0] for x in cb]:
-                mism.append(f"nbest scores: model {[x[0] for x in mb][:10]} C {[x[0] for x in cb][:10]}")
-            else:
-                inc("nbest:same-scores-different-tie-order")
-    # ---- best path
-    if "P" in d:
-        P = d["P"]
-        if P["best"] < 0:
-            if L:
-                viol.append(("lattice_bestpath returned NULL for a lattice with links", True))
-            if ok_lat and rep.get("best") is not None:
-                mism.append("bestpath: model returns a link, C returns NULL")
-        else:
-            mx = rem(s)
-            if P["score"] != mx:
-                viol.append((f"lattice_bestpath score {P['score']} is not the maximum {mx} over start->end paths", True))
-            if d["R"]:
-                j, tot, chain = P["best"], 0, []
-                while j >= 0 and len(chain) <= len(L):
-                    chain.append(j)
-                    tot += L[j]["ascr"]
-                    j = d["R"][j]["prev"]
-                chain.reverse()
-                if L[chain[0]]["src"] != s or L[chain[-1]]["dst"] != e or any(L[a]["dst"] != L[b2]["src"] for a, b2 in zip(chain, chain[1:])):
-                    viol.append(("the best_prev chain of the returned link is not a start->end path", True))
-                elif tot != P["score"]:
-                    viol.append((f"the best_prev chain sums to {tot}, path_scr is {P['score']}", True))
-                # lattice-based segmentation of the best path = its word instances
-            if ok_lat and rep.get("best") is not None and rep["best"]["score"] != P["score"]:
-                mism.append(f"bestpath score: model {rep['best']['score']} C {P['score']}")
-            if ok_lat and rep.get("best") is None:
-                mism.append("bestpath: model returns none, C returns a link")
-        # ---- posteriors
-        if d["R"] and "Q" in d and T is not None and sorted(T) == list(range(len(L))):
-            lz = P["logzero"]
-            sc, alpha, beta, norm, bwd = reference_fb(d)
-            nl = len(L)
-            tol1 = 0.5 * (nl + 2) + 1e-6            # one quantity: half a unit per log-add on its chain
-            worst = 0.0
-            for j, r in d["R"].items():
-                if r["alpha"] <= lz or r["beta"] <= lz:
-                    viol.append((f"link {j} has zero forward or backward probability in a lattice where every link is on a start->end path", True))
-                    continue
-                da, db = r["alpha"] - alpha[j], r["beta"] - beta[j]
-                worst = max(worst, abs(da), abs(db))
-                if abs(da) > tol1 or abs(db) > tol1:
-                    viol.append((f"link {j}: alpha/beta {r['alpha']}/{r['beta']} deviate from the exact values {alpha[j]:.2f}/{beta[j]:.2f} by more than the rounding bound {tol1}", True))
-                if r["post"] != r["alpha"] + r["beta"] - d["Q"]["norm"]:
-                    viol.append((f"link {j}: ps_latlink_prob {r['post']} is not alpha + beta - norm", True))
-                if r["post"] > 3 * tol1:
-                    viol.append((f"link {j}: posterior {r['post']} exceeds one by more than the rounding bound {3 * tol1}", True))
-                if alpha[j] + beta[j] - norm > 1e-6:
-                    c.oblige("float64 reference posteriors are <= 1", False, {"link": j})
-            if abs(d["Q"]["norm"] - norm) > tol1:
-                viol.append((f"normaliser {d['Q']['norm']} deviates from the exact forward total {norm:.2f} by more than {tol1}", True))
-            # forward total = backward total (exact in the reference, within the bound in integers)
-            if abs(norm - bwd) > 1e-6 * max(1.0, abs(norm)):
-                c.oblige("float64 reference: forward total = backward total", False, {"fwd": norm, "bwd": bwd})
-            bint = None
-            # the integer backward total is not computed by the C code; rebuild it from the C betas with exact sums
-            lnb = math.log(P["base"]) * (1 << P["shift"])
-            bint = logsumexp_b([d["R"][x]["beta"] + sc[x] for x in exits[s]], lnb)
-            if bint is not None and abs(bint - d["Q"]["norm"]) > 2 * tol1:
-                viol.append((f"backward total {bint:.2f} (from the betas) and forward total {d['Q']['norm']} differ by more than {2 * tol1}", True))
-            if d["Q"]["post"] > 0:
-                viol.append((f"posterior of the best path {d['Q']['post']} exceeds one", True))
-            # exact correspondence of the integer passes (model: alphaInt/betaInt/normInt with the decoder's log-add table)
-            if ok_lat and rep.get("alpha") is not None and len(rep["alpha"]) == nl:
-                inc("posterior:lattices-compared-exactly")
-                ca = [d["R"][j]["alpha"] for j in range(nl)]
-                cb = [d["R"][j]["beta"] for j in range(nl)]
-                if rep["alpha"] != ca:
-                    k = next(i for i in range(nl) if rep["alpha"][i] != ca[i])
-                    mism.append(f"alphaInt: link {k} model {rep['alpha'][k]} C {ca[k]}")
-                if rep["beta"] != cb:
-                    k = next(i for i in range(nl) if rep["beta"][i] != cb[i])
-                    mism.append(f"betaInt: link {k} model {rep['beta'][k]} C {cb[k]}")
-                if rep.get("norm") != d["Q"]["norm"]:
-                    mism.append(f"normInt: model {rep.get('norm')} C {d['Q']['norm']}")
-            if any(r.get("scaled") is not None and r["scaled"] != sc[j] for j, r in d["R"].items()):
-                c.oblige("float32 emulation of the score scaling agrees with the harness", False, {"case": case})
-            inc("posterior:links", nl)
-            stats["posterior:max-abs-deviation-from-exact"] = max(stats.get("posterior:max-abs-deviation-from-exact", 0.0), round(worst, 3))
-            stats["posterior:largest-bound-used"] = max(stats.get("posterior:largest-bound-used", 0.0), tol1)
     return viol, mism
 
 
